@@ -652,6 +652,95 @@ func runC13(c *Ctx) {
 				}
 			}
 		}
+		// R4b: the merge always places the new entry: every return follows a placement of the new digest and one of
+		// the new path (the append of the entry itself places both); where a helper copies the fields, its stores stand
+		// on every path through the helper — no condition (a timestamp comparison, say) leaves an existing entry as it was
+		// while the endorsement file has already been rewritten
+		placesField := func(pl ssa.Instruction, field string) (places, unconditional bool) {
+			switch x := pl.(type) {
+			case *ssa.Store:
+				if _, isElem := x.Addr.(*ssa.IndexAddr); isElem {
+					return true, true
+				}
+				if fa, ok := x.Addr.(*ssa.FieldAddr); ok && flow.FieldName(fa) == field {
+					return true, true
+				}
+			case *ssa.Call:
+				g := x.Call.StaticCallee()
+				if g == nil || g.Blocks == nil {
+					return false, false
+				}
+				for _, gb := range g.Blocks {
+					for _, gi := range gb.Instrs {
+						st, ok := gi.(*ssa.Store)
+						if !ok {
+							continue
+						}
+						fa, ok := st.Addr.(*ssa.FieldAddr)
+						if !ok || flow.FieldName(fa) != field {
+							continue
+						}
+						if pt, ok := fa.X.Type().Underlying().(*types.Pointer); !ok || !namedIs(pt.Elem(), repoPath("proto/releases"), "VMEndorsementMap_Entry") {
+							continue
+						}
+						places = true
+						all := true
+						for _, rb := range g.Blocks {
+							if _, isRet := rb.Instrs[len(rb.Instrs)-1].(*ssa.Return); isRet && !gb.Dominates(rb) {
+								all = false
+							}
+						}
+						if all {
+							unconditional = true
+						}
+					}
+				}
+			}
+			return places, unconditional
+		}
+		okPlaced, whyNot := true, ""
+		for _, field := range []string{"Digest", "Path"} {
+			// forward must-analysis: the field has been placed on every path to the end of a block
+			gen := map[*ssa.BasicBlock]bool{}
+			for _, pl := range placements {
+				pf, un := placesField(pl, field)
+				if pf && un {
+					gen[pl.Block()] = true
+				} else if pf && whyNot == "" {
+					whyNot = fmt.Sprintf("the helper called at %s stores the new %s only on some of its paths", c.pos(pl.Pos()), field)
+				}
+			}
+			out := map[*ssa.BasicBlock]bool{}
+			for _, blk := range f.Blocks {
+				out[blk] = true // top
+			}
+			for changed := true; changed; {
+				changed = false
+				for i, blk := range f.Blocks {
+					in := i != 0 && len(blk.Preds) > 0
+					for _, pr := range blk.Preds {
+						if !out[pr] {
+							in = false
+						}
+					}
+					o := in || gen[blk]
+					if o != out[blk] {
+						out[blk] = o
+						changed = true
+					}
+				}
+			}
+			for _, rb := range f.Blocks {
+				ret, isRet := rb.Instrs[len(rb.Instrs)-1].(*ssa.Return)
+				if isRet && !out[rb] {
+					okPlaced = false
+					if whyNot == "" {
+						whyNot = fmt.Sprintf("the return at %s can be reached without a placement of the new %s", c.pos(ret.Pos()), field)
+					}
+				}
+			}
+		}
+		c.S.Check(okPlaced, "R4", load.FuncName(f)+":new entry always placed", c.pos(f.Pos()), "every return follows a placement of the new digest and path", "the merge can return a list that does not hold the new entry's digest and path ("+whyNot+"): the endorsement file has been rewritten by then, so the manifest names a digest its file does not sign")
 		c.S.Floor("R4", "placements of the new entry in "+load.FuncName(f), 1, len(placements))
 		if !bad {
 			c.S.OK("R4", load.FuncName(f)+":entry dropped after placement", c.pos(f.Pos()), fmt.Sprintf("%d drop calls keyed by the new entry, all before the %d placements", len(filters), len(placements)), true)
